@@ -476,8 +476,15 @@ class TracksBuilder(ABC):
 
         # Check if any seg_id differs from node_id
         if np.array_equal(seg_ids, node_ids):
-            # No relabeling needed
-            return seg_array.compute(), scale
+            # No relabeling needed, but labels that do not belong to a node of that
+            # time point must still become background
+            computed_seg = seg_array.compute()
+            times = node_props[self.TIME_ATTR]["values"]
+            new_segmentation = np.zeros_like(computed_seg)
+            for t in np.unique(times):
+                keep = np.isin(computed_seg[t], node_ids[times == t])
+                new_segmentation[t][keep] = computed_seg[t][keep]
+            return new_segmentation, scale
 
         # Relabel segmentation: seg_id -> node_id
         time_values = node_props[NodeAttr.TIME.value]["values"]
